@@ -215,6 +215,25 @@ func ttxGenStream(r *fw.Rand) ttxStream {
 	cnt := map[string]int64{}
 	mag, page := r.Range(1, 8), r.Intn(100)
 	serial := r.Bool()
+	// whether the reader will be told the page, and if so whether the page carries the subtitle flag at all (the
+	// flag only matters for finding a page when none is given: subtitles also travel on ordinary and newsflash pages)
+	pageGiven := r.Bool()
+	flagged := !(pageGiven && r.P(1, 3))
+	if !flagged {
+		cnt["streams_whose_selected_page_lacks_the_subtitle_flag"]++
+	}
+	// the line offset of the data units: the usual line 7, "undefined" (0: file-based inserters have no VBI line to
+	// report), or any line and field per unit
+	lineMode := r.Intn(3)
+	lineByte := func() byte {
+		switch lineMode {
+		case 0:
+			return 0xe7
+		case 1:
+			return fw.Pick(r, []byte{0xc0, 0xe0})
+		}
+		return 0xc0 | byte(r.Intn(2))<<5 | fw.Pick(r, []byte{0, 7, 8, 15, 21, 22})
+	}
 	tpid := uint16(r.Range(0x100, 0x1fe0))
 	pmtPID := uint16(r.Range(0x20, 0xff))
 	var otherPIDs []uint16
@@ -368,7 +387,7 @@ func ttxGenStream(r *fw.Rand) ttxStream {
 		return c
 	}
 	for _, in := range insts {
-		h := ttxUnit(0x03, 0xe4, mag, 0, ttxHeader(page, ttxHeaderFlags{erase: in.erase, subtitle: true, serial: serial, charset: in.charset}))
+		h := ttxUnit(0x03, 0xe4, mag, 0, ttxHeader(page, ttxHeaderFlags{erase: in.erase, subtitle: flagged, serial: serial, charset: in.charset}))
 		if r.P(1, 6) {
 			h = flip(h)
 		}
@@ -445,7 +464,11 @@ func ttxGenStream(r *fw.Rand) ttxStream {
 			if units[i].header != nil {
 				units[i].header.pts = pts
 			}
-			payload = append(payload, units[i].b...)
+			ub := append([]byte(nil), units[i].b...)
+			if len(ub) > 2 && (ub[0] == 0x02 || ub[0] == 0x03) {
+				ub[2] = lineByte()
+			}
+			payload = append(payload, ub...)
 			i++
 		}
 		w.payloadUnit(tpid, pesPacket(0xbd, pts, r.Bool(), payload), false)
@@ -515,7 +538,7 @@ func ttxGenStream(r *fw.Rand) ttxStream {
 		exp = append(exp, c)
 	}
 	s := ttxStream{data: w.buf.Bytes(), expected: exp, counters: cnt, mag: mag, page: page}
-	pageGiven, pidGiven := r.Bool(), r.Bool()
+	pidGiven := r.Bool()
 	if pageGiven {
 		s.opts.Page = mag*100 + page
 	}
